@@ -8,6 +8,7 @@ from ..srcmodel import AnalysisError, call_name, get_arg, norm, own_nodes, param
 
 HC = "hybrid_class::HybridClass"
 FD = "hybrid_class::_FieldOfDressed"
+MHC = "hybrid_class::MetaHybridClass"
 
 
 @rule("H1", ["C18"], "move is refused for nested objects and for objects containing references, before anything is rebuilt")
@@ -16,25 +17,57 @@ def h1(cx):
     f = m.func(f"{HC}.move")
     fl = Flow(f)
     rs = [r for r in own_nodes(f) if isinstance(r, ast.Raise)]
-    want = {
-        "nested": lambda txt: "not (self._movable)" in txt and "not (self._force_moveable)" in txt,
-        "refs": lambda txt: "self._xobject._has_refs" in txt and "not (self._force_moveable)" in txt and "not (self._xobject._has_refs)" not in txt,
-    }
     rebuild = [s for s in own_nodes(f) if isinstance(s, ast.Assign) and norm(s.targets[0]) == "self._xobject"]
     cx.need(len(rebuild) == 1, "move: reconstruction `self._xobject = ...` not found")
-    for key, pred in want.items():
-        from ..flow import atoms as _atoms
+    # The refusal predicate is decided as a truth table over the three flags the documentation names:
+    #   refuse  <=>  (not _movable and not _force_moveable)  or  (_has_refs and not _force_moveable)
+    # Each raise contributes the conjunction of all its enclosing/preceding guard conditions; the
+    # function's refusal predicate is their disjunction.  Any refactoring of the guards (factored common
+    # test, nested ifs, De Morgan forms) has the same table; a dropped or weakened guard does not.
+    LEAVES = {"self._movable": "m", "self._force_moveable": "f", "self._xobject._has_refs": "h"}
+    dmv = Defs(f)
 
-        def own(r):
-            p = r.parent
-            return [c.text() for c in _atoms(p.test, True)] if isinstance(p, ast.If) and r in p.body and p in f.body else []
+    class _NR(Exception):
+        pass
 
-        hit = [r for r in rs if pred(" & ".join(own(r))) and len(own(r)) == 2]
-        ok = len(hit) == 1 and fl.ordered_before(hit[0], rebuild[0])
-        cx.check(ok, hit[0] if hit else f, construct=f"move: refusal[{key}] " + (" & ".join(own(hit[0])) if hit else "missing"),
-                 detail="refused before the object is rebuilt elsewhere", bad_detail=f"move does not refuse ({key}) under exactly the documented condition before rebuilding")
+    def bev(e, env, depth=0):
+        if isinstance(e, ast.Name) and depth < 5 and dmv.single(e.id) is not None:
+            return bev(dmv.single(e.id), env, depth + 1)
+        t = norm(e)
+        if t in LEAVES:
+            return env[LEAVES[t]]
+        if isinstance(e, ast.UnaryOp) and isinstance(e.op, ast.Not):
+            return not bev(e.operand, env, depth)
+        if isinstance(e, ast.BoolOp):
+            vals = [bev(v, env, depth) for v in e.values]
+            return all(vals) if isinstance(e.op, ast.And) else any(vals)
+        if isinstance(e, ast.Constant) and isinstance(e.value, bool):
+            return e.value
+        if isinstance(e, ast.Call) and norm(e.func) == "bool" and len(e.args) == 1:
+            return bev(e.args[0], env, depth)
+        if isinstance(e, ast.Compare) and len(e.ops) == 1 and isinstance(e.ops[0], (ast.Is, ast.Eq, ast.IsNot, ast.NotEq)) and isinstance(e.comparators[0], ast.Constant) and isinstance(e.comparators[0].value, bool):
+            v = bev(e.left, env, depth) == e.comparators[0].value
+            return v if isinstance(e.ops[0], (ast.Is, ast.Eq)) else not v
+        raise _NR(short(e, 60))
+
+    import itertools as _it
+    table, bad_rows = {}, []
+    try:
+        for mv, fv, hv in _it.product((False, True), repeat=3):
+            env = {"m": mv, "f": fv, "h": hv}
+            got = any(all(bev(c.test, env) == c.pol for c in fl.conds_at(r) if c.kind == "if") for r in rs)
+            exp = (not mv and not fv) or (hv and not fv)
+            table[(mv, fv, hv)] = got
+            if got != exp:
+                bad_rows.append(f"_movable={mv} _force_moveable={fv} _has_refs={hv}: move {'refuses' if got else 'proceeds'}, documented: {'refuses' if exp else 'proceeds'}")
+    except _NR as e_:
+        cx.recog(False, f, f"HybridClass.move: guard condition `{e_}` is not over _movable/_force_moveable/_has_refs")
+    cx.check(not bad_rows, f, construct="move: refusal predicate over (_movable, _force_moveable, _has_refs), 8 rows", detail="refuses exactly when nested-and-not-forced or has-references-and-not-forced",
+             bad_detail="move's refusal condition differs from the documented one: " + "; ".join(bad_rows[:3]))
+    late = [r for r in rs if not fl.ordered_before(r, rebuild[0])]
+    cx.check(not late, late[0] if late else f, construct="move: every refusal precedes the reconstruction", detail=f"{len(rs)} raise statement(s), all before `self._xobject = ...`", bad_detail="move rebuilds the object elsewhere before it refuses", sub="order")
     v = rebuild[0].value
-    ok = isinstance(v, ast.Call) and norm(v.func) == "self._xobject.__class__" and norm(v.args[0]) == "self._xobject" and {k.arg: norm(k.value) for k in v.keywords} == {"_context": "_context", "_buffer": "_buffer", "_offset": "_offset"}
+    ok = isinstance(v, ast.Call) and norm(v.func) in ("self._xobject.__class__", "type(self._xobject)", "self._XoStruct") and len(v.args) == 1 and norm(v.args[0]) == "self._xobject" and {k.arg: norm(k.value) for k in v.keywords} == {"_context": "_context", "_buffer": "_buffer", "_offset": "_offset"}
     cx.check(ok, rebuild[0], construct=short(rebuild[0], 130), detail="copy-construction of the same struct class at the target", bad_detail="move does not copy-construct the struct at the requested target", sub="rebuild")
     cp = m.func(f"{HC}.copy")
     dcp = Defs(cp)
@@ -320,10 +353,20 @@ def h7(cx):
         return
     skip = _dnf(inner.test, not inner.pol)
 
+    walrus = {}
+    for n_ in ast.walk(f):
+        if isinstance(n_, ast.NamedExpr) and isinstance(n_.target, ast.Name):
+            walrus.setdefault(n_.target.id, []).append(n_.value)
+
     def resolve(e):
         k = 0
-        while isinstance(e, ast.Name) and d.single(e.id) is not None and k < 4:
-            e, k = d.single(e.id), k + 1
+        while isinstance(e, ast.Name) and k < 4:
+            if d.single(e.id) is not None:
+                e, k = d.single(e.id), k + 1
+            elif len(walrus.get(e.id, ())) == 1:
+                e, k = walrus[e.id][0], k + 1
+            else:
+                break
         return e
 
     def side(e):
@@ -475,9 +518,48 @@ def h4(cx):
     n += 1
     cx.check(kp == "py" and kx == "xo", s, construct=f"setattr(new_class, {norm(pyn)} : {kp}, _FieldOfDressed({norm(xon)} : {kx}, ...))", detail="python attribute name = renamed name, descriptor bound to the struct field name",
              bad_detail="descriptor is not installed under the renamed python name for the struct field name")
-    src = norm(mh)
-    ok = "inverse_rename = {v: k for k, v in rename.items()}" in src and "len(rename.keys()) != len(inverse_rename.keys())" in src and "(set(rename.keys()) | set(xofields.keys())) & set(rename.values())" in src
-    cx.check(ok, mh, construct="rename map is checked injective and clash-free (raising)", detail="renaming cannot alias two fields", bad_detail="rename injectivity / clash checks are missing", sub="injective")
+    # ---- evaluated: the metaclass is run on a two-field class with rename maps that are fine / alias two fields /
+    # take the name of an unrenamed field; the tables and descriptors of the accepted class are compared
+    from .layout import Lab
+    from ..peval import Obj as _Obj
+    for ren, expect in (({"a": "x"}, "accept"), ({}, "accept"), (None, "accept"), ({"a": "x", "b": "x"}, "refuse"), ({"a": "b"}, "refuse")):
+        lab = Lab(m)
+        I = lab.I
+
+        def thunk():
+            MH = I.global_lookup("hybrid_class", "MetaHybridClass")
+            HCv = I.global_lookup("hybrid_class", "HybridClass")
+            F = I.global_lookup("scalar", "Float64")
+            data = {"_xofields": {"a": F, "b": F}}
+            if ren is not None:
+                data["_rename"] = dict(ren)
+            return I.call(I.getattr(MH, "__new__"), [MH, "T", (HCv,), data], {})
+
+        res = I.explore(thunk, max_paths=32)
+        label = f"class T(HybridClass): _xofields={{a,b}}, _rename={ren!r}"
+        n += 1
+        if expect == "refuse":
+            acc = [r for r in res if r["exc"] is None]
+            cx.check(not acc, None, construct=label, detail="refused: two attributes cannot name one field / one name two fields", bad_detail="a rename map that aliases two fields (or takes the name of another field) is accepted: one attribute no longer reflects its field", anchor=f"{MHC}.__new__", sub="injective")
+            continue
+        bad = ""
+        for r in res:
+            if r["exc"] is not None:
+                bad = f"refused with {r['exc'].etype}"
+                break
+            c = r["result"]
+            rn = dict(ren or {})
+            want_desc = {rn.get(k, k): k for k in ("a", "b")}
+            got_desc = {k: (I.getattr(v, "name") if isinstance(v, _Obj) and v.cls is not None and v.cls.name == "_FieldOfDressed" else None) for k, v in c.attrs.items() if isinstance(v, _Obj) and v.cls is not None and v.cls.name == "_FieldOfDressed"}
+            if got_desc != want_desc:
+                bad = f"descriptors {got_desc}, expected {want_desc}"
+            elif dict(c.attrs.get("_rename", {})) != rn or dict(c.attrs.get("_inverse_rename", {})) != {v: k for k, v in rn.items()}:
+                bad = f"_rename={c.attrs.get('_rename')!r} _inverse_rename={c.attrs.get('_inverse_rename')!r}"
+            elif list(c.attrs.get("_xo_fnames", [])) != ["a", "b"] or sorted(c.attrs.get("_py_fnames", [])) != sorted(want_desc):
+                bad = f"_xo_fnames={c.attrs.get('_xo_fnames')!r} _py_fnames={c.attrs.get('_py_fnames')!r}"
+            if bad:
+                break
+        cx.check(not bad, None, construct=label, detail="descriptor per python name bound to its struct field; rename tables inverse of each other", bad_detail=f"class construction under renaming: {bad}", anchor=f"{MHC}.__new__", sub="tables")
     # ---- xoinitialize: struct kwargs keyed by xo names
     f = m.func(f"{HC}.xoinitialize")
     env = {"kk": "any"}
@@ -606,57 +688,49 @@ def j1(cx):
     # J2 single source of defaults
     dl = [s for s in own_nodes(f) if isinstance(s, ast.Assign) and isinstance(s.targets[0], ast.Subscript) and norm(s.targets[0].value) == "defaults"]
     cx.check(len(dl) == 1 and norm(dl[0].value) == "field.get_default()", dl[0] if dl else f, construct="defaults[...] = field.get_default()", detail="elision compares against Field.get_default()", bad_detail="elision default is not Field.get_default()", sub="J2")
-    vfa = m.func("struct::Field.value_from_args")
-    src = norm(vfa)
-    ok = "if self.name in arg" in src and "return arg[self.name]" in src and "return self.get_default()" in src
-    cx.check(ok, vfa, construct="Field.value_from_args: arg[name] if present else get_default()", detail="the constructor fills an omitted key from the same get_default()", bad_detail="an omitted key is not filled from Field.get_default()", sub="J2")
-    gd = m.func("struct::Field.get_default")
-    src = norm(gd)
-    ok = "self.default_factory is None" in src and "return self.ftype()" in src and "dispatch_arg(self.ftype, self.default)" in src and "return self.default_factory()" in src
-    cx.check(ok, gd, construct="get_default: factory() | ftype() | ftype(default)", detail="declared default, default factory or the type's zero value", bad_detail="get_default no longer honours default / default_factory / type default", sub="J2")
+    # evaluated: Field.get_default / Field.value_from_args on field declarations of every default kind
+    from ..peval import Interp, Builtin as _B, Opaque as _Op
+    m.func("struct::Field.value_from_args"), m.func("struct::Field.get_default")
+    I = Interp(m)
+    FieldC = I.global_lookup("struct", "Field")
+    calls = []
+
+    def ftype(*a, **k):
+        calls.append(("ftype", a, k))
+        return ("ftype-value", a, tuple(sorted(k.items())))
+
+    fac_val = _Op("factory-value")
+    FT = _B("ftype", ftype)
+    cases = [("no default", {}, ("ftype-value", (), ())),
+             ("default=3", {"default": 3}, ("ftype-value", (3,), ())),
+             ("default=0", {"default": 0}, ("ftype-value", (0,), ())),
+             ("default=(1, 2)", {"default": (1, 2)}, ("ftype-value", (1, 2), ())),
+             ("default={'k': 5}", {"default": {"k": 5}}, ("ftype-value", (), (("k", 5),))),
+             ("default_factory=f", {"default_factory": _B("factory", lambda: fac_val)}, fac_val)]
+    for label, kw, want in cases:
+        out = {}
+
+        def thunk():
+            fld = I.call(FieldC, [FT], dict(kw))
+            fld.attrs["name"] = "fname"
+            out["d"] = I.call(I.getattr(fld, "get_default"), [], {})
+            out["absent"] = I.call(I.getattr(fld, "value_from_args"), [{"other": 1}], {})
+            out["present"] = I.call(I.getattr(fld, "value_from_args"), [{"fname": "given", "other": 1}], {})
+
+        res = I.explore(thunk, max_paths=8)
+        cx.recog(len(res) == 1 and res[0]["exc"] is None, None, f"Field({label}): get_default/value_from_args evaluation did not end in one normal path")
+        ok = out.get("d") == want or out.get("d") is want
+        cx.check(ok, None, construct=f"Field(ftype, {label}).get_default()", detail="factory() | ftype() | ftype(default) (tuple/dict defaults spread)", bad_detail=f"get_default gives {out.get('d')!r}, expected {want!r}", anchor="struct::Field.get_default", sub="J2")
+        ok = (out.get("absent") == want or out.get("absent") is want) and out.get("present") == "given"
+        cx.check(ok, None, construct=f"Field(ftype, {label}).value_from_args: key absent -> get_default(), key present -> the given value", detail="the constructor fills an omitted key from the same get_default() the elision compares against", bad_detail=f"value_from_args: absent -> {out.get('absent')!r} (declared default {want!r}), present -> {out.get('present')!r}", anchor="struct::Field.value_from_args", sub="J2")
     # from_dict forwards the dictionary unchanged, name check disabled
     sf = m.func(f"{HC}._static_from_dict")
     calls = [c for c in own_nodes(sf) if isinstance(c, ast.Call) and norm(c.func) == "cls"]
     ok = len(calls) == 1 and any(k.arg is None and norm(k.value) == "dct" for k in calls[0].keywords) and {k.arg: norm(k.value) for k in calls[0].keywords if k.arg}.get("_kwargs_name_check") == "False"
     cx.check(ok, sf, construct="from_dict: cls(**dct, ..., _kwargs_name_check=False)", detail="every key of the dictionary reaches the constructor ('__class__' tolerated)", bad_detail="from_dict does not forward the dictionary unchanged", sub="from_dict")
-    xi = m.func(f"{HC}.xoinitialize")
-    src = norm(xi)
-    cx.check("if kk.startswith('_'):\n            continue" in src.replace("                ", "            ") or "kk.startswith('_')" in src, xi, construct="xoinitialize: keys starting with '_' are not field names", detail="'__class__' and placement keywords are skipped by the name check", bad_detail="underscore keys are no longer skipped", sub="from_dict")
 
 
-@rule("J3", ["C19"], "JSON forms: producers (struct dict, array list, union 2-tuple) match what the constructors consume")
-def j3(cx):
-    m = cx.m
-    sj = m.func("struct::Struct._to_json")
-    src = norm(sj)
-    ok = "for field in self._fields" in src and "v = field.__get__(self)" in src and "hasattr(v, '_to_json')" in src and "out[field.name] = v" in src
-    fl = Flow(sj)
-    st = [s for s in own_nodes(sj) if isinstance(s, ast.Assign) and norm(s.targets[0]) == "out[field.name]"]
-    ok = ok and len(st) == 1 and not [c for c in fl.conds_at(st[0]) if c.kind == "if"]
-    cx.check(ok, sj, construct="Struct._to_json: {field.name: value (recursing via _to_json)} over all fields", detail="one key per field, unconditionally", bad_detail="Struct._to_json does not emit every field by name")
-    aj = m.func("array::Array._to_json")
-    src = norm(aj)
-    ok = "for v in self" in src and "out.append(vdata)" in src and "vdata = v._to_json()" in src and "(v.__class__.__name__, vdata)" in src
-    cx.check(ok, aj, construct="Array._to_json: list of items (recursing), (classname, data) when items are references", detail="list form; reference items carry their class name", bad_detail="Array._to_json does not produce the list / tagged-tuple form")
-    uj = m.func("ref::UnionRef._to_json")
-    r = [x for x in own_nodes(uj) if isinstance(x, ast.Return)]
-    ok = len(r) == 1 and isinstance(r[0].value, ast.Tuple) and len(r[0].value.elts) == 2 and norm(r[0].value.elts[0]) == "classname" and "v.__class__.__name__" in norm(uj)
-    cx.check(ok, r[0] if r else uj, construct="UnionRef._to_json: (classname, data)", detail="2-tuple consumed by the union writer's (str, data) arm", bad_detail="UnionRef._to_json does not return (classname, data)")
-    da = m.func("typeutils::dispatch_arg")
-    src = norm(da)
-    ok = "isinstance(arg, tuple)" in src and "return f(*arg)" in src and "isinstance(arg, dict)" in src and "return f(**arg)" in src and "return f(arg)" in src
-    cx.check(ok, da, construct="dispatch_arg: tuple -> f(*arg), dict -> f(**arg), else f(arg)", detail="constructors accept the dict/tuple forms", bad_detail="dispatch_arg no longer maps tuple/dict to positional/keyword calls")
-    # union writer consumes (name, data)
-    uw = m.func("ref::MetaUnionRef._to_buffer")
-    src = norm(uw)
-    ok = "tname, data = value" in src and "typ = cls._type_from_name(tname)" in src and "typeid = cls._typeid_from_name(tname)" in src and "xobj = typ(data, _buffer=buffer)" in src
-    cx.check(ok, uw, construct="union writer: (tname, data) -> typ/typeid from the same name, typ(data, _buffer=buffer)", detail="the recorded member id and the constructed member derive from one key", bad_detail="the 2-tuple arm does not resolve type and id from the same name")
-    # dynamic struct planner accepts a dict
-    from .guards import struct_closure
-
-    dyn = struct_closure(m, "_inspect_args", True)
-    src = norm(dyn)
-    cx.check("isinstance(arg, dict)" in src and "return cls._inspect_args(kwargs)" in src, dyn, construct="struct planner: dict argument or kwargs -> dict", detail="JSON dict form accepted positionally", bad_detail="struct planner no longer accepts a dict argument")
+# J3 (JSON producer/consumer forms) is decided by evaluation: rule J3 in rules/layout.py
 
 
 # ------------------------------------------------------------------------------------------ P
@@ -675,57 +749,55 @@ def p1(cx):
     hg = m.func(f"{HC}.__getstate__")
     r = [x for x in own_nodes(hg) if isinstance(x, ast.Return)]
     cx.check(len(r) == 1 and norm(r[0].value) == "self._xobject.__getstate__()", r[0] if r else hg, construct="HybridClass.__getstate__ -> struct state", detail="hybrid objects pickle as (buffer, offset) of their struct", bad_detail="hybrid state is not the struct's state", sub="hybrid")
-    # P2: every __getstate__ that edits a dict edits a copy
+    # P2/P3 (evaluated): __getstate__ of each context class is run on an instance with a buffer registry, compiled
+    # kernels and plain attributes; it must leave the live instance untouched (P2); __setstate__ on a blank instance must
+    # bring every attribute back, with a fresh empty buffer registry and a usable kernels mapping (P3)
+    from ..peval import Interp, Obj as _Obj, Opaque as _Op, PyExc as _PyExc
     n = 0
-    for modname in ("context", "context_cpu", "context_cupy", "context_pyopencl", "struct", "array", "hybrid_class", "ref", "string"):
-        for c in m.all_classes(modname):
-            g = m.methods(c).get("__getstate__")
-            if g is None:
-                continue
-            d = Defs(g)
-            for st in own_nodes(g):
-                tgt = None
-                if isinstance(st, ast.Delete):
-                    for t in st.targets:
-                        if isinstance(t, ast.Subscript) and isinstance(t.value, ast.Name):
-                            tgt = (t.value.id, st)
-                elif isinstance(st, ast.Assign) and isinstance(st.targets[0], ast.Subscript) and isinstance(st.targets[0].value, ast.Name):
-                    tgt = (st.targets[0].value.id, st)
-                elif isinstance(st, ast.Expr) and isinstance(st.value, ast.Call) and call_name(st.value) in ("pop", "clear", "update") and isinstance(st.value.func.value, ast.Name):
-                    tgt = (st.value.func.value.id, st)
-                if tgt is None:
-                    continue
-                name, node = tgt
-                src = d.single(name)
-                if src is None:
-                    continue
-                s = norm(src)
-                n += 1
-                alias = s == "self.__dict__" or s == "vars(self)"
-                copy = s in ("self.__dict__.copy()", "dict(self.__dict__)", "{**self.__dict__}", "copy.copy(self.__dict__)") or (isinstance(src, ast.DictComp) and "self.__dict__" in s)
-                if not alias and not copy:
-                    raise AnalysisError(f"[P1] {c.name}.__getstate__: cannot classify `{name} = {s}` as copy or alias")
-                cx.check(copy, node, construct=f"{c.name}.__getstate__: {name} = {s}; {short(node)}", detail="the state dict is a copy of the instance dict",
-                         bad_detail=f"`{name}` aliases the live self.__dict__: pickling removes/changes attributes of the live object", sub="P2")
-    cx.need(n >= 2, f"expected >= 2 state edits in __getstate__ methods, found {n}")
-    # P3 contexts restore what they drop
     for spec in ("context::XContext", "context_cpu::ContextCpu"):
         c = m.cls(spec)
         ms = m.methods(c)
-        g, s = ms.get("__getstate__"), ms.get("__setstate__")
-        cx.need(g is not None and s is not None, f"{spec}: state methods not found")
-        dropped = [norm(t.slice) for st in own_nodes(g) if isinstance(st, ast.Delete) for t in st.targets if isinstance(t, ast.Subscript)]
-        restored = [norm(st.targets[0]) for st in own_nodes(s) if isinstance(st, ast.Assign)]
-        upd = "self.__dict__.update(state)" in norm(s)
-        ok = upd and all(f"self.{k.strip(chr(39))}" in restored for k in dropped)
-        cx.check(ok, s, construct=f"{c.name}: drops {dropped}, restores {restored}", detail="a restored context has every attribute again (fresh weak set of buffers)", bad_detail="a dropped attribute is not re-created by __setstate__", sub="P3")
-        after = [st for st in own_nodes(s) if isinstance(st, ast.Assign) and norm(st.targets[0]) == "self._buffers"]
-        fl = Flow(s)
-        updc = [x for x in own_nodes(s) if isinstance(x, ast.Call) and call_name(x) == "update"]
-        cx.check(bool(after) and bool(updc) and norm(after[0].value) == "weakref.WeakSet()", after[0] if after else s, construct="self._buffers = weakref.WeakSet()", detail="buffer registry re-created empty", bad_detail="_buffers is not re-created as a weak set", sub="P3")
-    cg = m.func("context_cpu::ContextCpu.__getstate__")
-    src = norm(cg)
-    cx.check("state['_kernels'] = {}" in src, cg, construct="ContextCpu: compiled kernels are replaced by an empty mapping (not deleted)", detail="kernels attribute stays usable after unpickling", bad_detail="_kernels is deleted rather than emptied", sub="P3")
+        cx.need(ms.get("__getstate__") is not None and ms.get("__setstate__") is not None, f"{spec}: state methods not found")
+        I = Interp(m)
+        C = I.global_lookup(*spec.split("::"))
+        registry = {_Op("weak-buffer-1")}
+        kern = {"k": _Op("compiled-kernel")}
+        live = {"_buffers": registry, "_kernels": kern, "omp_num_threads": 0, "_cffi_verbose": False, "minimum_alignment": 8, "extra_attr": _Op("plain")}
+        inst = _Obj("instance", dict(live), cls=C)
+        out = {}
+
+        def thunk():
+            out["state"] = I.call(I.getattr(inst, "__getstate__"), [], {})
+            out["after"] = dict(inst.attrs)
+            out["reg_after"] = set(registry)
+            out["kern_after"] = dict(kern)
+            new = _Obj("instance", {}, cls=C)
+            I.call(I.getattr(new, "__setstate__"), [out["state"]], {})
+            out["new"] = new
+
+        res = I.explore(thunk, max_paths=8)
+        cx.recog(len(res) == 1 and res[0]["exc"] is None, ms["__getstate__"], f"{c.name}.__getstate__/__setstate__: evaluation did not end in one normal path ({res[0]['exc'] if res else ''})")
+        n += 1
+        same = set(out["after"]) == set(live) and all(out["after"][k] is live[k] for k in live) and out["reg_after"] == registry and out["kern_after"] == kern
+        gone = sorted(set(live) - set(out["after"]))
+        cx.check(same, None, construct=f"{c.name}.__getstate__ leaves the live context as it was", detail="the state dict is a copy of the instance dict",
+                 bad_detail=f"pickling changes the live context: attributes removed {gone}" if gone else "pickling changes the live context (an attribute or the kernel/buffer registry is edited in place)", anchor=f"{spec}.__getstate__", sub="P2")
+        st = out["state"]
+        cx.recog(isinstance(st, dict), ms["__getstate__"], f"{c.name}.__getstate__: state is not a dict")
+        if "_buffers" in st:
+            cx.note(None, detail=f"{c.name}: the weak registry of live buffers travels with the state (re-created by __setstate__ anyway; not judged)", anchor=f"{spec}.__getstate__")
+        if spec.endswith("ContextCpu"):
+            cx.check(isinstance(st, dict) and not st.get("_kernels"), None, construct="ContextCpu: compiled kernels are not part of the state", detail="cffi modules are not picklable", bad_detail="compiled kernels are pickled with the context", anchor=f"{spec}.__getstate__", sub="P3")
+        na = out["new"].attrs
+        missing = sorted(set(live) - set(na))
+        cx.check(not missing, None, construct=f"{c.name}: restored context has every attribute again ({sorted(na)})", detail="a restored context is complete", bad_detail=f"a restored context lacks {missing}: a dropped attribute is not re-created by __setstate__", anchor=f"{spec}.__setstate__", sub="P3")
+        rb = na.get("_buffers")
+        cx.check(isinstance(rb, set) and not rb and rb is not registry, None, construct=f"{c.name}: restored _buffers is a fresh empty weak set", detail="buffer registry re-created empty", bad_detail="_buffers is not re-created as an empty weak set", anchor=f"{spec}.__setstate__", sub="P3")
+        plain = all(na.get(k) is live[k] or na.get(k) == live[k] for k in live if k not in ("_buffers", "_kernels"))
+        cx.check(plain, None, construct=f"{c.name}: plain attributes restored unchanged", detail="state round trip", bad_detail="a plain attribute is changed by the state round trip", anchor=f"{spec}.__setstate__", sub="P3")
+        if "_kernels" in na:
+            cx.check(isinstance(na["_kernels"], dict), None, construct=f"{c.name}: restored _kernels is a mapping", detail="kernels attribute stays usable after unpickling", bad_detail="_kernels is not a mapping after unpickling", anchor=f"{spec}.__setstate__", sub="P3")
+    cx.need(n >= 2, f"expected 2 context classes with state methods, found {n}")
     # P4 buffers stay allocators: no state methods, all allocator state is plain data
     xb = m.cls("context::XBuffer")
     ms = m.methods(xb)
